@@ -168,17 +168,46 @@ class MatchesSetwise:
         self.matchers = matchers
 
     def match(self, observed):
-        remaining_matchers = set(self.matchers)
+        # Find a maximum one-to-one assignment of observed values to matchers
+        # (augmenting paths), so that the verdict does not depend on the order
+        # in which matchers or values are considered, and so that the same
+        # matcher object passed twice counts twice.
+        matchers = list(self.matchers)
+        observed = list(observed)
+        value_for = [None] * len(matchers)
+        verdicts = {}
+
+        def matches(matcher_index, value_index):
+            key = (matcher_index, value_index)
+            if key not in verdicts:
+                verdicts[key] = (
+                    matchers[matcher_index].match(observed[value_index]) is None
+                )
+            return verdicts[key]
+
+        def assign(value_index, visited):
+            for matcher_index in range(len(matchers)):
+                if matcher_index in visited:
+                    continue
+                if not matches(matcher_index, value_index):
+                    continue
+                visited.add(matcher_index)
+                previous = value_for[matcher_index]
+                if previous is None or assign(previous, visited):
+                    value_for[matcher_index] = value_index
+                    return True
+            return False
+
         not_matched = []
-        for value in observed:
-            for matcher in remaining_matchers:
-                if matcher.match(value) is None:
-                    remaining_matchers.remove(matcher)
-                    break
-            else:
-                not_matched.append(value)
+        for value_index in range(len(observed)):
+            if not assign(value_index, set()):
+                not_matched.append(observed[value_index])
+        remaining_matchers = [
+            matcher
+            for matcher_index, matcher in enumerate(matchers)
+            if value_for[matcher_index] is None
+        ]
         if not_matched or remaining_matchers:
-            remaining_matchers = list(remaining_matchers)
             # There are various cases that all should be reported somewhat
             # differently.
 
